@@ -225,7 +225,8 @@ def rule_table(rep: Report, repo: Repo, used: Set[str]) -> None:
                       expected=f'operator.{REF_OPERATOR_IMPORTS[op]}')
         elif op == '**':
             pw = repo.func(EXPR, '_pow')
-            rets = [norm(r.value) for r in ast.walk(pw) if isinstance(r, ast.Return)]
+            from ..pyfacts import resolve_names as _rn
+            rets = [norm(_rn(pw, r.value)) for r in ast.walk(pw) if isinstance(r, ast.Return) and r.value is not None]     # a named power reads as the power
             params = [a.arg for a in pw.args.args]
             ok = isinstance(v, ast.Name) and v.id == '_pow' and len(params) == 2 and rets in (
                 [f'int({params[0]} ** {params[1]})'], [f'{params[0]} ** {params[1]}'])
@@ -246,7 +247,8 @@ def _unbounded_decimal_decoder(repo: Repo, fname: str) -> Optional[str]:
     significant first: value = value * 10 ** len(chunk) + int(chunk) over range(0, len(p), K). Otherwise the reason."""
     if not repo.has_func(PARSER, fname):
         return f'{fname} is not a function of the parser module'
-    fn = repo.func(PARSER, fname)
+    from ..pyfacts import normalize_counting_whiles, resolve_names
+    fn = normalize_counting_whiles(repo.func(PARSER, fname))          # `i = 0; while i < n: ..; i += K` reads as range(0, n, K)
     ps = [a.arg for a in fn.args.args]
     body = [st for st in fn.body if not (isinstance(st, ast.Expr) and isinstance(st.value, ast.Constant))]
     if len(ps) != 1 or len(body) != 1 or not isinstance(body[0], ast.Try):
@@ -261,12 +263,11 @@ def _unbounded_decimal_decoder(repo: Repo, fname: str) -> Optional[str]:
         return 'the fallback is not one loop over chunks'
     lp = loops[0]
     iv = lp.target.id
-    it = lp.iter
+    it = resolve_names(fn, lp.iter)                 # a named chunk width reads as its literal
     if not (isinstance(it, ast.Call) and dotted(it.func) == 'range' and len(it.args) == 3 and norm(it.args[0]) == '0' and norm(it.args[1]) == f'len({p_})'
             and isinstance(it.args[2], ast.Constant) and isinstance(it.args[2].value, int) and 0 < it.args[2].value <= 640):
         return 'the chunk loop is not range(0, len(p), K) with a literal 0 < K <= 640'
     K = it.args[2].value
-    from ..pyfacts import resolve_names
     ups = [x for x in lp.body if isinstance(x, (ast.Assign, ast.AugAssign))]
     acc = [x for x in ups if isinstance(x, ast.Assign) and isinstance(x.targets[0], ast.Name) and any(
         isinstance(y, ast.Name) and y.id == x.targets[0].id for y in ast.walk(x.value))]
